@@ -287,6 +287,15 @@ def offsets_worker(part, codes, mixed_eps):
                     except Exception as e:
                         part.fail(key, "operation %s shifted by %s (+%s) raised %r" % (bstr, k, eps, e), case)
                         break
+                    # the predicates of the class say the same as the forms: is_identity() exactly for the operation that equals x,y,z
+                    try:
+                        ident = bool(o.is_identity())
+                    except Exception:
+                        ident = None
+                    if ident is not (code == 16484):
+                        part.fail("offset-is-identity:%s" % pat, "operation %s shifted by lattice vector %s (+%s) via %s: is_identity() says %s, the operation %s x,y,z"
+                                  % (bstr, k, eps, how, ident, "equals" if code == 16484 else "does not equal"), case)
+                        break
                     if not same:
                         part.fail(key, "operation %s shifted by lattice vector %s (+%s) via %s is not equal to the original: code %d vs %d"
                                   % (bstr, k, eps, how, int(o.integer_code), code), case)
